@@ -3,7 +3,8 @@
 Scope
 -----
 All vectors of length <= 3 (quick: <= 2 for the operand-heavy groups bin-scalar / bin-seq / concat / cmp / rshift, <= 3
-for the rest) over the 12-value pool
+for the rest; quick also drops, at length 3 only, mask / index-list assignment and Vector-typed masks, and gives the constant
+sequences of bin-seq as plain lists only) over the 12-value pool
 {None, True, 0, 1, 2.5, 1j, 'a', b'a', date, datetime, Color.RED (IntEnum), Opaque()} and, for every one of them,
 every public operation that returns or mutates a vector:
   ctor      Vector(list) / Vector(tuple) / Vector(iterator)
@@ -161,7 +162,7 @@ def run_group(vals, group, lite=False):
         seqs = [[s] * n for s in POOL] + [list(reversed(vals))]
         for nm, fn in ARITH:
             for base in seqs:
-                for as_vec in (False, True):
+                for as_vec in ((False,) if (lite and base is not seqs[-1]) else (False, True)):
                     def operand():
                         return Vector(list(base)) if as_vec else list(base)
                     try:
@@ -228,7 +229,8 @@ def run_group(vals, group, lite=False):
         for mask in itertools.product([True, False], repeat=n):
             if n:
                 attempt('Vector.getitem:mask', lambda: mk()[list(mask)], f'{src}[{list(mask)}]', fails, seen)
-                attempt('Vector.getitem:mask', lambda: mk()[Vector(list(mask))], f'{src}[Vector({list(mask)})]', fails, seen)
+                if not lite:
+                    attempt('Vector.getitem:mask', lambda: mk()[Vector(list(mask))], f'{src}[Vector({list(mask)})]', fails, seen)
         if n:
             attempt('Vector.getitem:index-list', lambda: mk()[list(range(n - 1, -1, -1))], f'{src}[reversed indices]', fails, seen)
             attempt('Vector.getitem:index-list', lambda: mk()[[0] * 2], f'{src}[[0, 0]]', fails, seen)
@@ -250,7 +252,7 @@ def run_group(vals, group, lite=False):
                 except Exception:
                     pass
                 if lite:
-                    continue                 # quick tier, length 3: int-key and slice assignment only
+                    continue                 # quick tier, length 3: int-key and slice assignment only (mask / index list: length <= 2)
                 v = mk()
                 try:
                     v[[j == n - 1 for j in range(n)]] = x
@@ -342,13 +344,16 @@ def cases(tier, seed):
         for combo in itertools.product(POOL, repeat=ln):
             v = lit(list(combo))
             for g in GROUPS_LIGHT:
-                if q and ln == 3 and g == 'setitem':
+                if q and ln == 3 and g in ('setitem', 'struct'):
                     yield {'op': 'vec', 'values': v, 'group': g, 'lite': True}
                 else:
                     yield {'op': 'vec', 'values': v, 'group': g}
             if ln <= (2 if q else 3):
                 for g in GROUPS_HEAVY:
-                    yield {'op': 'vec', 'values': v, 'group': g}
+                    if q and g == 'bin-seq':
+                        yield {'op': 'vec', 'values': v, 'group': g, 'lite': True}    # constant sequences as plain lists only
+                    else:
+                        yield {'op': 'vec', 'values': v, 'group': g}
     for k in range(len(COLS)):
         for v in range(len(COLS)):
             for top in ('ctor', 'sort', 'aggregate', 'window', 'join', 'inner_join', 'full_join'):
